@@ -69,6 +69,7 @@ func (s *compositeSchedule) Next() (tx time.Time, ok bool) {
 	}
 	schedsLeft := len(s.scheds)
 	s.rwMu.RUnlock()
+	verifYield("next:after-runlock")
 	if schedsLeft == 1 {
 		return // All nested schedules has been finished, so composite is finished too.
 	}
@@ -86,6 +87,7 @@ func (s *compositeSchedule) Next() (tx time.Time, ok bool) {
 		}
 		// Very strange. Schedule was started and drained while we was waiting for it.
 		// Should very rare, so let's just retry.
+		verifYield("next:retry-drained")
 		return s.Next()
 	}
 	s.startNext(tx)
@@ -93,6 +95,7 @@ func (s *compositeSchedule) Next() (tx time.Time, ok bool) {
 	s.rwMu.Unlock()
 	if !ok && schedsLeftNow > 1 {
 		// What? Schedule without any tokens? Okay, just retry.
+		verifYield("next:retry-empty")
 		return s.Next()
 	}
 	return
@@ -104,6 +107,7 @@ func (s *compositeSchedule) Left() int {
 	leftAfter := int(s.leftAfter[0])
 	left := s.scheds[0].Left()
 	s.rwMu.RUnlock()
+	verifYield("left:after-runlock")
 	if schedsLeft == 1 {
 		return left
 	}
@@ -124,6 +128,7 @@ func (s *compositeSchedule) Left() int {
 			s.startNext(currentFinishTime)
 		}
 		s.rwMu.Unlock()
+		verifYield("left:retry")
 		return s.Left()
 	}
 	if left < 0 {
